@@ -770,7 +770,9 @@ class C18(core.PropertyCheck):
                     if dict(map(tuple, got["replacement"] or [])) != repl:
                         return f"{name} entry {i} ({ref}): replacements {got['replacement']} expected child-first merge {repl}"
                     unknown = []
-                    if ref and not ref.startswith("_"):
+                    # every entry that is rendered gets its placeholders filled; only a base entry (ref starting with "_"), which exists
+                    # to be inherited from, keeps them. A step without ref is rendered like any other step.
+                    if not (ref or "").startswith("_"):
                         env = dict(consts)
                         env.update(repl)
                         fields = [sub_val(v, env, unknown) for v in fields]
